@@ -145,6 +145,12 @@ theorem C13_silent_skip_counterexample :
     let s' := step po0 s (.set .remove (some 5) [5])
     s.db.gcSize = 0 ∧ gcSum s.db.gc = 1 ∧ s'.db.gcSize = 0 ∧ gcSum s'.db.gc = 0 := by decide
 
+/-- trigger `inv-failed-batch-keeps-direct-write`: a multi-address pin that fails on its second address
+keeps the direct `gcIndex.Put` done for the first one, and drops the batch with the gcSize update. -/
+theorem C13_inv_step_failed_batch_counterexample :
+    Inv sFile ∧ (run po0 sFile (.set .pin (some 1) [1, 7])).out = .err .notFound ∧
+    ¬ Inv (step po0 sFile (.set .pin (some 1) [1, 7])) := by decide
+
 /-- the pyramid script used below: file 1 consists of root 1 and chunk 2 -/
 def pyrTrue : List (Addr × Option (List (Addr × Nat))) := [(1, some [(2, 1)]), (5, some [])]
 
